@@ -6,13 +6,16 @@ from .parser import Parser
 
 
 class RouteMethod:
-    __slots__ = ('route', 'name', 'handler', 'meta')
+    __slots__ = ('route', 'name', 'handler', 'meta', 'params')
 
-    def __init__(self, route, name, handler, meta=None):
+    def __init__(self, route, name, handler, meta=None, params=None):
         self.route = route
         self.name = name
         self.handler = handler
         self.meta = meta
+        #: param names of the rule this handler was registered with
+        #: (several rules may share one route pattern)
+        self.params = params
 
     def remove(self):
         self.route.remove_method(self.name)
@@ -110,14 +113,14 @@ class Route:
 
         return ''.join(ret)
 
-    def _set_methods(self, methods, handler, meta=None):
+    def _set_methods(self, methods, handler, meta=None, params=None):
         for meth in methods:
-            self._methods[meth] = RouteMethod(self, meth, handler, meta)
+            self._methods[meth] = RouteMethod(self, meth, handler, meta, params)
 
-    def set_method(self, method, handler, meta=None):
+    def set_method(self, method, handler, meta=None, params=None):
         if isinstance(method, str):
             method = [method]
-        self._set_methods(method, handler, meta)
+        self._set_methods(method, handler, meta, params)
 
     def _raise_if_registered(self, method, candidate):
         registered = set(self._methods) & set(method)
@@ -133,11 +136,11 @@ class Route:
                 f'but there are already registered: `{registered_fullnames}`'
             )
 
-    def add_method(self, method, handler, meta=None):
+    def add_method(self, method, handler, meta=None, params=None):
         if isinstance(method, str):
             method = [method]
         self._raise_if_registered(method, handler)
-        self._set_methods(method, handler, meta)
+        self._set_methods(method, handler, meta, params)
 
     def remove_method(self, method):
         if isinstance(method, str):
@@ -318,7 +321,7 @@ class RadiRouter:
             return None, [404, 'Not Found', extra]
         try:
             meth = route[methods]
-            params = route.make_params_dict(extra['param_keys'], extra['param_values'])
+            params = route.make_params_dict(meth.params or extra['param_keys'], extra['param_values'])
             return [meth, params, extra['hooks']], None
         except RouteMethodError:
             allowed = ",".join(sorted(route.methods))
@@ -375,6 +378,7 @@ class RadiRouter:
 
     def _add(self, rule, methods, handler, name=None, *, meta=None, overwrite=False):
         route = Route(rule)
+        params = route.params
         route_ = self._match(route.pattern, route.filters)
         if route_:
             route = route_
@@ -383,9 +387,9 @@ class RadiRouter:
             self.routes[route.pattern] = route
 
         if overwrite:
-            route.set_method(methods, handler, meta)
+            route.set_method(methods, handler, meta, params)
         else:
-            route.add_method(methods, handler, meta)
+            route.add_method(methods, handler, meta, params)
 
         if name:
             registered = self.named_routes.get(name)
